@@ -183,6 +183,13 @@ class OShadow:
 
 NLAB = 10
 
+# object-level mutators: the positions of the arguments that must be objects (not the optional edge object of
+# o.link / o.createNodeFrom)
+NULLABLE = {"o.createNode": [2], "o.createNodeFrom": [2, 3], "o.link": [2, 3], "o.unlink": [2, 3], "o.deleteNode": [2],
+            "o.associateNode": [2], "o.associateEdge": [2], "o.dissociateNode": [2], "o.dissociateEdge": [2],
+            "o.setNodeIndex": [2], "o.addNodeIndex": [2], "o.setEdgeIndex": [2], "o.addEdgeIndex": [2],
+            "o.setEdgeLinking": [2, 3, 4], "o.setRoot": [2]}
+
 
 def random_observer_case(rng, i, maxlen=40, flavour=0):
     """flavour 0: mostly object-level operations; 1: many operations made directly on the shared graph;
@@ -438,6 +445,13 @@ def random_observer_case(rng, i, maxlen=40, flavour=0):
             ops.append("o.leavesFrom %d %d %d" % (k, node(o), rng.randint(0, 4)))
         else:
             ops.append("o.qi %d %d" % (k, rng.randint(0, 7)))
+    # a null pointer where an object is required (must raise and change nothing): about one such call per case
+    for j, l in enumerate(ops):
+        t = l.split()
+        pos = NULLABLE.get(t[0])
+        if pos and rng.random() < 0.04:
+            t[rng.choice(pos)] = "-"
+            ops[j] = " ".join(t)
     for k in sorted(obs):
         ops.append("o.qg %d" % k)
         for a in sorted(obs[k].n)[:2]:
